@@ -83,6 +83,9 @@ def gen_reader_cases(ctx, n_streams):
         ('rtureq', [bytes([1, 7, 0, 0])]), ('rtursp', [bytes([1, 0x2B, 0, 0])]), ('rtureq', [bytes([1, 0x81, 1, 0, 0])]),
         ('rtureq', [bytes([5])]), ('rtureq', []),
     ]
+    for line in fc.load_corpus('C06', 'reader.txt'):
+        cases.append(fc.case_from_line(line))
+        tags.append(({'corpus'}, 'corpus'))
     for role, d in directed:
         for fin in ['eof', 'pending']:
             for mode in ['stop', 'resume']:
@@ -118,7 +121,7 @@ def gen_reader_cases(ctx, n_streams):
 # ---------------------------------------------------------------- emission
 def gen_emit_cases(ctx, n):
     r = ctx.rng
-    lines = []
+    lines = fc.load_corpus('C06', 'emit.txt')
     counts_bits = [1, 2, 7, 8, 9, 15, 16, 17, 1000, 1967, 1968, 1969, 2000, 2001]
     counts_regs = [1, 2, 3, 100, 122, 123, 124, 125, 126]
     for k in ['rc', 'rd']:
@@ -153,7 +156,7 @@ def gen_emit_cases(ctx, n):
     return lines
 
 
-def check_emitted(ctx, what, frames, sources):
+def check_emitted(ctx, what, frames, sources, replay_cases=None):
     """every emitted frame = rtu_format of its own destination and PDU = the Spec's rtu_frame_of, and <= 256 bytes"""
     frames = [bytes.fromhex(f) for f in frames]
     ok_shape = [len(f) >= 4 for f in frames]
@@ -161,7 +164,8 @@ def check_emitted(ctx, what, frames, sources):
                        case_type='N * list N', per_shard=100)
     it = iter(coq)
     bad = 0
-    for f, src, okf in zip(frames, sources, ok_shape):
+    replay_cases = replay_cases or [{'emit': what, 'line': src} for src in sources]
+    for f, src, okf, rc in zip(frames, sources, ok_shape, replay_cases):
         model, _, spec = (next(it).partition('|') if okf else ('', '', ''))
         third = fc.rtu_frame(f[0], f[1:-2]).hex().upper() if okf else ''
         got = f.hex().upper()
@@ -170,11 +174,11 @@ def check_emitted(ctx, what, frames, sources):
             if bad == 1:
                 ctx.violation(f'{what}.emitted-frame-not-crc-of-address-and-pdu',
                               f'{what} emitted {got[:80]}.. ({len(f)} bytes) for `{src[:80]}`; the Spec frame for that address and PDU is {spec[:80]}..',
-                              {'cases': [{'emit': what, 'line': src}], 'impl': got, 'spec': spec, 'model': model})
+                              {'cases': [rc], 'impl': got, 'spec': spec, 'model': model})
         elif got != model:
             bad += 1
             ctx.violation(f'{what}.model-differs-from-impl', f'{src[:80]}: emitted {got[:60]} model {model[:60]}',
-                          {'cases': [{'emit': what, 'line': src}], 'impl': got, 'model': model, 'spec': spec}, no_failing_input=True)
+                          {'cases': [rc], 'impl': got, 'model': model, 'spec': spec}, no_failing_input=True)
     return bad
 
 
@@ -220,9 +224,9 @@ def run(ctx):
         for c, (t, _) in zip(cases, tags):
             if c[0] == 'rtureq' and c[1] == 'stop' and len(server_cases) < (500 if ctx.quick() else 5000):
                 server_cases.append((c[2], c[3]))
-    srv = ctx.harness('rtu_server', [' '.join([fin] + [(x.hex() if x else '-') for x in ch]) for fin, ch in server_cases], shards=8) if server_cases else []
+    srv = ctx.harness('server_session', [' '.join(['rtu', fin] + [(x.hex() if x else '-') for x in ch]) for fin, ch in server_cases], shards=8) if server_cases else []
     srv_results = fc.evaluate(ctx, [('rtureq', 'stop', fin, ch) for fin, ch in server_cases])
-    replies, reply_src, bad_srv, n_silent = [], [], 0, 0
+    replies, reply_src, reply_rc, bad_srv, n_silent = [], [], [], 0, 0
     for (fin, ch), line, (impl, model, spec, _) in zip(server_cases, srv, srv_results):
         f = dict(kv.split('=', 1) for kv in line.split(' ')) if line != 'PANIC' else {'calls': '-1', 'replies': '-', 'end': 'PANIC'}
         spec_frames = spec.count('F(')
@@ -241,7 +245,8 @@ def run(ctx):
             for rep in f['replies'].split(','):
                 replies.append(rep)
                 reply_src.append(fc.to_line(('rtureq', 'stop', fin, ch))[:200])
-    bad_rep = check_emitted(ctx, 'server', replies, reply_src) if replies else 0
+                reply_rc.append({'server': 1, 'fin': fin, 'chunks': [x.hex() for x in ch]})
+    bad_rep = check_emitted(ctx, 'server', replies, reply_src, reply_rc) if replies else 0
     ctx.oblige('correspondence:rtu-server-session', bad_srv == 0 and bad_rep == 0,
                f'{bad_srv} session mismatches over {len(server_cases)} sessions ({n_silent} must stay silent); {bad_rep} bad replies of {len(replies)}')
     longest = max([longest] + [len(x) // 2 for x in replies])
